@@ -272,12 +272,19 @@ func c19Run(line string) string {
 			return c19IdsP(ptrs)
 		case "tl", "bs":
 			b := fpgo.NewSortDescriptorsBuilder[c19Rec]()
-			for k, d := range ds {
+			for k := 0; k < len(ds); k++ {
+				d := ds[k]
 				switch {
 				case d.kind == 'f':
 					b = b.ThenWithFieldName(string(d.field), d.asc)
 				case k%2 == 1:
-					b = b.ThenWith(fpgo.NewSimpleSortDescriptor(c19Transformer(d.field), d.asc))
+					// ThenWith(...) with this and all directly following transformer descriptors at once
+					var group []fpgo.SortDescriptor[c19Rec]
+					for ; k < len(ds) && ds[k].kind == 't'; k++ {
+						group = append(group, fpgo.NewSimpleSortDescriptor(c19Transformer(ds[k].field), ds[k].asc))
+					}
+					k--
+					b = b.ThenWith(group...)
 				default:
 					b = b.ThenWithTransformerFunctor(c19Transformer(d.field), d.asc)
 				}
@@ -403,13 +410,13 @@ func c19Dom(field byte, n int) []string {
 	var d []string
 	switch field {
 	case 'A':
-		d = []string{"0", "1", "2"}
+		d = []string{"0", "10", "2"} // 10 vs 2: a textual comparison would invert them
 	case 'C':
 		d = []string{"0", "-1", "7"}
 	case 'B':
-		d = []string{"=a", "=ab", "=b"}
+		d = []string{"=a", "=B", "=ab"} // bytewise: "B" < "a" < "ab"
 	default:
-		d = []string{"=x", "=xy", "="}
+		d = []string{"=x", "=Xy", "="}
 	}
 	return d[:n]
 }
@@ -611,7 +618,8 @@ func c19Gen(tier string, rng *rand.Rand, emit func(string)) map[string]interface
 				if fld == 'A' || fld == 'C' {
 					f[i] = strconv.Itoa(rng.Intn(41) - 20)
 				} else {
-					f[i] = "=" + string([]byte{byte('a' + rng.Intn(3)), byte('a' + rng.Intn(3))})[:rng.Intn(3)]
+					al := []byte("abBZ")
+					f[i] = "=" + string([]byte{al[rng.Intn(4)], al[rng.Intn(4)]})[:rng.Intn(3)]
 				}
 			}
 		}
@@ -627,7 +635,10 @@ func c19Gen(tier string, rng *rand.Rand, emit func(string)) map[string]interface
 		default:
 			n = 25 + rng.Intn(36)
 		}
-		lenHist[fmt.Sprintf("%02d-%02d", n/10*10, n/10*10+9)]++
+		if thorough && rng.Intn(20) == 0 {
+			n = 61 + rng.Intn(140)
+		}
+		lenHist[fmt.Sprintf("%03d-%03d", n/10*10, n/10*10+9)]++
 		small := rng.Intn(2) == 0
 		l := make([]string, n)
 		for i := range l {
@@ -637,6 +648,9 @@ func c19Gen(tier string, rng *rand.Rand, emit func(string)) map[string]interface
 	}
 	for i := 0; i < nRandom; i++ {
 		k := 1 + rng.Intn(3)
+		if rng.Intn(10) == 0 {
+			k = 4 // beyond the property's 1..3, same mechanism
+		}
 		perm := rng.Perm(4)
 		ds := make([]c19D, k)
 		for j := range ds {
@@ -686,8 +700,8 @@ func c19Gen(tier string, rng *rand.Rand, emit func(string)) map[string]interface
 	}
 
 	// (6) SortOrdered*: ints and strings
-	ivals := []string{"0", "-1", "2"}
-	svals := []string{"=a", "=ab", "="}
+	ivals := []string{"10", "-1", "2"}
+	svals := []string{"=a", "=B", "="}
 	for _, api := range c19OrdApis {
 		counts["exhO"] += c19Lists(ivals, 5, func(body string) { emit("O " + api + " i: " + body) })
 		counts["exhO"] += c19Lists(svals, 5, func(body string) { emit("O " + api + " s: " + body) })
@@ -702,9 +716,10 @@ func c19Gen(tier string, rng *rand.Rand, emit func(string)) map[string]interface
 		isStr := rng.Intn(2) == 0
 		for j := range l {
 			if isStr {
-				l[j] = "=" + string([]byte{byte('a' + rng.Intn(3)), byte('a' + rng.Intn(3)), byte('a' + rng.Intn(3))})[:rng.Intn(4)]
+				al := []byte("abBZ")
+				l[j] = "=" + string([]byte{al[rng.Intn(4)], al[rng.Intn(4)], al[rng.Intn(4)]})[:rng.Intn(4)]
 			} else {
-				l[j] = strconv.Itoa(rng.Intn(21) - 10)
+				l[j] = strconv.Itoa(rng.Intn(41) - 20)
 			}
 		}
 		ty := "i"
